@@ -52,8 +52,13 @@ def search(engine, seqs, k):
     """neighbour triplets from the real search function; k = 0 keeps the distance-0 pairs of the k = 1 search
     (the search functions reject max_edits = 0)."""
     import pyrepseq.nn as nn
-    fn = getattr(nn, engine)
-    res = fn(list(seqs), max_edits=max(1, k), output_type='triplets')
+    if engine == 'kdtree_top1':
+        # max_returns=1: each sequence lists only its nearest neighbour, so the list is NOT symmetric (an edge may appear in one
+        # orientation only) - still a neighbour list produced by the search functions
+        res = nn.kdtree(list(seqs), max_edits=max(1, k), max_returns=1, output_type='triplets')
+    else:
+        fn = getattr(nn, engine)
+        res = fn(list(seqs), max_edits=max(1, k), output_type='triplets')
     res = [(int(a), int(b), int(d)) for a, b, d in res]
     if k == 0:
         res = [t for t in res if t[2] == 0]
@@ -62,7 +67,7 @@ def search(engine, seqs, k):
 
 def engine_ok(engine, seqs, k):
     """documented limits of the alternative engines (amino-acid alphabet; hash_based enumerates the edit ball)."""
-    if engine in ('kdtree', 'hash_based') and any(c not in gens.AA for s in seqs for c in s):
+    if engine in ('kdtree', 'kdtree_top1', 'hash_based') and any(c not in gens.AA for s in seqs for c in s):
         return False
     if engine == 'hash_based' and (k > 2 or any(len(s) > (13 if k <= 1 else 8) for s in seqs) or (k == 2 and len(seqs) > 25)):
         return False
@@ -79,10 +84,23 @@ def adj_as(kind, adj):
     raise ValueError(kind)
 
 
+def nodes_as(which, labels):
+    """the caller's node labels in the containers a caller uses: list, ndarray, a column of a filtered / re-ordered table
+    (Series whose index is not 0..n-1), pandas Index"""
+    labels = list(labels)
+    if which == 1:
+        return np.array(labels, dtype=object)
+    if which == 2:
+        return pd.Series(labels, index=[3 * i + 5 for i in range(len(labels))][::-1], dtype=object)
+    if which == 3:
+        return pd.Index(labels)
+    return labels
+
+
 # ------------------------------------------------------------------ (a) connected components
 def cc_outcome(adj, kind, labels):
     from pyrepseq.clustering import graph_clustering
-    g = call_impl(lambda: graph_clustering(adj_as(kind, adj), list(labels), 'cc'))
+    g = call_impl(lambda: graph_clustering(adj_as(kind, adj), nodes_as(len(adj) % 4, labels), 'cc'))
     if g[0] != 'ok':
         return g
     try:
@@ -474,7 +492,7 @@ def run(ctx):
         return
     ncc = 70 if q else 1200
     for it in range(ncc):
-        eng = ENGINES[it % 4]
+        eng = ENGINES[it % 4] if it % 9 != 8 else 'kdtree_top1'
         k = rng.choice([1, 1, 2, 3])
         n = rng.randint(2, 40 if q else 120)
         if eng == 'hash_based':
@@ -533,12 +551,12 @@ def run(ctx):
             which = ['A', 'B', 'AB'][form - 3]
             cols = tcr_columns(rng, n, which)
             kind = rng.choice(['table_permuted', 'table_strindex'])
-            if which == 'AB' and it % 4 == 0:
+            if which == 'AB' and (it // 6) % 4 == 0:
                 kind = 'pair_tuple'
                 cols = {c: cols[c] for c in ('CDR3A', 'CDR3B')}
-            elif which == 'AB' and it % 4 == 1:
+            elif which == 'AB' and (it // 6) % 4 == 1:
                 metric_spec = (rng.choice(['BetaCdr3Levenshtein', 'AlphaCdr3Levenshtein']), [1, 1, 1])
-            elif which == 'AB' and it % 4 == 2:
+            elif which == 'AB' and (it // 6) % 4 == 2:
                 metric_spec = ('Cdr3Levenshtein', [rng.choice([1, 2]), rng.choice([1, 2]), rng.choice([1, 2])])
         if it % 7 == 0:
             lk, ck = None, None                                                   # the defaults
